@@ -146,12 +146,7 @@ impl<'a> Gen<'a> {
                 8 => format!("-{}", self.paren_if_needed(Ty::Num, d)),
                 9 => format!("({})", self.expr(Ty::Num, d)),
                 10 if self.f.luau => format!("({} // 2)", self.expr(Ty::Num, d)),
-                11 if self.f.luau => format!(
-                    "(if {} then {} else {})",
-                    self.expr(Ty::Bool, d),
-                    self.expr(Ty::Num, d),
-                    self.expr(Ty::Num, d)
-                ),
+                11 if self.f.luau => self.if_expr(Ty::Num, d),
                 12 if self.f.refactor => format!("math.sqrt({})", self.rng.pick(&["4", "9", "16", "0", "2.25", "4", "9"])),
                 15 if self.f.refactor => "(1 / math.sqrt(-0))".to_owned(),
                 13 => format!("ext_n({})", self.expr(Ty::Num, d)),
@@ -168,12 +163,7 @@ impl<'a> Gen<'a> {
                     format!("`<{{{}}}|{{{}}}>`", a, b)
                 }
                 4 => format!("tostring({})", self.expr(Ty::Num, d)),
-                5 if self.f.luau => format!(
-                    "(if {} then {} else {})",
-                    self.expr(Ty::Bool, d),
-                    self.expr(Ty::Str, d),
-                    self.expr(Ty::Str, d)
-                ),
+                5 if self.f.luau => self.if_expr(Ty::Str, d),
                 6 => format!("type({})", self.expr(Ty::Any, d)),
                 _ => format!("({})", self.expr(Ty::Str, d)),
             },
@@ -207,6 +197,64 @@ impl<'a> Gen<'a> {
                 format!("function(p) return p, {} end", body)
             }
             Ty::Any => unreachable!(),
+        }
+    }
+
+    /// condition of an if-expression: often statically known (true / false / foldable)
+    fn if_cond(&mut self, d: usize) -> String {
+        match self.rng.below(6) {
+            0 => "true".into(),
+            1 => "false".into(),
+            2 => "(1 < 2)".into(),
+            _ => self.expr(Ty::Bool, d),
+        }
+    }
+
+    /// `(if c then r {elseif c then r} else r)` with 0..3 elseif branches
+    fn if_expr(&mut self, ty: Ty, d: usize) -> String {
+        let mut out = format!("(if {} then {}", self.if_cond(d), self.if_result(ty, d));
+        for _ in 0..self.rng.below(4) {
+            out.push_str(&format!(" elseif {} then {}", self.if_cond(d), self.if_result(ty, d)));
+        }
+        out.push_str(&format!(" else {})", self.if_result(ty, d)));
+        out
+    }
+
+    fn if_result(&mut self, ty: Ty, d: usize) -> String {
+        if self.rng.chance(1, 6) && d > 0 {
+            // nested if-expression as a branch result
+            self.if_expr(ty, d - 1)
+        } else {
+            self.expr(ty, d)
+        }
+    }
+
+    /// an expression of any kind whose value may be nil or false: falsy if-expression results,
+    /// multi-value calls
+    fn any_expr(&mut self, d: usize) -> String {
+        if self.f.luau && self.rng.chance(1, 2) {
+            let mut out = format!("(if {} then {}", self.if_cond(d), self.falsy_or(d));
+            for _ in 0..self.rng.below(3) {
+                out.push_str(&format!(" elseif {} then {}", self.if_cond(d), self.falsy_or(d)));
+            }
+            out.push_str(&format!(" else {})", self.falsy_or(d)));
+            out
+        } else {
+            self.falsy_or(d)
+        }
+    }
+
+    fn falsy_or(&mut self, d: usize) -> String {
+        match self.rng.below(8) {
+            0 => "nil".into(),
+            1 => "false".into(),
+            2 => "ext_n()".into(),
+            3 if self.f.luau && d > 0 => {
+                // nested: statically false first condition, unknown elseif, falsy / truthy results
+                format!("(if false then \"dbg\" elseif {} then nil else \"verbose\")", self.expr(Ty::Bool, d - 1))
+            }
+            4 => self.expr(Ty::Str, d),
+            _ => self.expr(Ty::Num, d),
         }
     }
 
@@ -297,6 +345,10 @@ impl<'a> Gen<'a> {
         let n = 1 + self.rng.below(3);
         let mut args = Vec::new();
         for _ in 0..n {
+            if self.rng.chance(1, 5) {
+                args.push(self.any_expr(2));
+                continue;
+            }
             let ty = *self.rng.pick(&[Ty::Num, Ty::Str, Ty::Bool, Ty::Any, Ty::Num]);
             args.push(self.expr(ty, 2));
         }
@@ -362,13 +414,37 @@ impl<'a> Gen<'a> {
                 // table field updates
                 if let Some(t) = self.var_of(Ty::Tbl) {
                     let e = self.expr(Ty::Num, 1);
-                    match self.rng.below(5) {
+                    match self.rng.below(7) {
                         0 => self.line(&format!("{}.f = {}", t, e)),
                         1 => self.line(&format!("{}[\"g\"] = {}", t, e)),
                         2 if self.f.luau => self.line(&format!("{}.n = 1 {}.n += {}", t, t, e)),
                         3 if self.f.luau => {
-                            self.line(&format!("{}[ext_n(1)] = 5", t));
-                            self.line(&format!("{}[ext_n(2)] += {}", t, e))
+                            // the key is an effectful expression in various syntactic wrappers: it must
+                            // be evaluated once (each ext_n call returns the next oracle value)
+                            let key = *self.rng.pick(&[
+                                "ext_n(2)",
+                                "(ext_n(2))",
+                                "ext_n(2) :: number",
+                                "(ext_n(2) :: number)",
+                                "ext_n(2) + 0",
+                                "#{ ext_n(2) }",
+                                "`{ext_n(2)}`",
+                                "(if ext_b() then 1 else 1)",
+                            ]);
+                            for k in ["1", "2", "3", "0", "7", "\"1\"", "\"2\"", "\"3\"", "\"0\"", "\"7\""] {
+                                self.line(&format!("{}[{}] = 5", t, k));
+                            }
+                            let op = *self.rng.pick(&["+=", "-=", "*=", "//=", "%="]);
+                            self.line(&format!("{}[{}] {} {}", t, key, op, if op == "//=" || op == "%=" { "2".to_owned() } else { e }));
+                            self.line(&format!("ext_p({}[1], {}[2], {}[3], {}[\"1\"], {}[\"2\"])", t, t, t, t, t));
+                        }
+                        5 if self.f.luau => {
+                            // effectful prefix
+                            self.line(&format!("local function pick() ext_p(\"pick\") return {} end", t));
+                            self.line(&format!("{}.m = 1", t));
+                            let target = *self.rng.pick(&["pick().m", "(pick()).m", "pick()[\"m\"]", "(pick() :: any).m"]);
+                            self.line(&format!("{} += {}", target, e));
+                            self.line(&format!("ext_p({}.m)", t));
                         }
                         _ => {
                             let key = *self.rng.pick(&["1", "2", "\"s\""]);
